@@ -107,6 +107,13 @@ func (t ICECandidateType) MarshalText() ([]byte, error) { //nolint:staticcheck
 
 // UnmarshalText implements the encoding.TextUnmarshaler interface.
 func (t *ICECandidateType) UnmarshalText(b []byte) error {
+	if string(b) == ICECandidateTypeUnknown.String() {
+		// the zero value, as written by MarshalText
+		*t = ICECandidateTypeUnknown
+
+		return nil
+	}
+
 	var err error
 	*t, err = NewICECandidateType(string(b))
 
